@@ -152,20 +152,34 @@ def c13(ctx):
         rep.fail("C13.R1", "anchor::expect_token_or_end", "Parser::expect_token_or_end not found")
     else:
         rep.analysed(eo)
-        sw = None
-        for bi in range(len(eo.blocks)):
-            s = tables.arms_complete(eo, bi)
-            if s and s[1].peel_refs().adt() == "std::option::Option" and any(d[0] == "call" and callee_def(eo.term(d[1])) == PARSER + "current" for d, _ in origins(eo, {"copy": s[0]})):
-                sw = s
-        ok, why = False, "no branch on current() found"
-        if sw:
-            none_r = tables.result_of_arm(eo, sw[2]["None"], stop=[sw[2]["Some"]])
-            some_region = eo.reachable(sw[2]["Some"], avoid=[sw[2]["None"]])
-            ooe = [b for b in some_region if eo.term(b)["k"] == "call" and is_callee(eo.term(b), "std::option::Option::<T>::ok_or_else") and eo.term(b)["dest"]["l"] == 0]
-            flt = [b for b in some_region if eo.term(b)["k"] == "call" and is_callee(eo.term(b), "std::option::Option::<T>::filter")]
-            errs = [f_ for f_, bi_, s_ in common.aggregates_of(F, "frontend::parser::ParseErrorCode", "ExpectedToken") if common.top_fn(F, f_) is eo]
-            ok = none_r == {("agg", "Result::Ok", (("agg", "Option::None", ()),))} and len(ooe) == 1 and len(flt) == 1 and bool(errs)
-            why = "" if ok else "table differs from: end of input -> Ok(None); matching token -> consumed; other token -> Err(ExpectedToken)"
+        # outcome table by KIND (whatever idiom): end of input -> Ok(None); current token of the expected kind -> consumed, Ok(it);
+        # any other token -> Err(ExpectedToken(kind)), nothing consumed
+        from .. import kind as _kind, kindtables as _kt
+        from ..kind import E as _E, c as _kc
+        OPT_, TOK_ = "std::option::Option", "frontend::lexer::Token"
+
+        def m_current(I_, f, st, t, args, depth):
+            yield _E(OPT_, "None"), None, ((("current",), "end"),)
+            yield _E(OPT_, "Some", _E(TOK_, "Token", ("sym", "cur_id"), ("sym", "sp"), ("sym", "rg"))), None, ((("current",), "some"),)
+
+        def m_next(I_, f, st, t, args, depth):
+            yield ("call", "lexer_next", ()), None, ((("consumed",), "1"),)
+
+        def m_err(I_, f, st, t, args, depth):
+            yield ("call", "parse_error", (_kind._short(args[1]),)), None, ()
+
+        def m_eq(I_, f, st, t, args, depth):
+            yield _kc(True), None, ((("id==tok",), "T"),)
+            yield _kc(False), None, ((("id==tok",), "F"),)
+        I_ = _kind.Interp(F, models={PARSER + "current": m_current, "std::iter::Iterator::next": m_next, PARSER + "new_parse_error": m_err, "std::cmp::PartialEq::eq": m_eq,
+                                     "std::cmp::PartialEq::ne": lambda I2, f, st, t, args, depth: iter([(_kc(False), None, ((("id==tok",), "T"),)), (_kc(True), None, ((("id==tok",), "F"),))])})
+        got = set()
+        for o in I_.run(eo, [("sym", "self"), ("sym", "tok")]):
+            cd = {c_[0][0]: c_[1] for c_ in o.conds if isinstance(c_[0], tuple) and len(c_[0]) == 1}
+            got.add((cd.get("current"), cd.get("id==tok"), "consumed" if "consumed" in cd else "-", _kt.term(o.ret)))
+        want = {("end", None, "-", "Ok(None)"), ("some", "T", "consumed", "Ok(lexer_next())"), ("some", "F", "-", "Err(parse_error(ExpectedToken(tok)))")}
+        ok = got == want and not I_.incomplete
+        why = "" if ok else "table is %s; the rule: end of input -> Ok(None); matching token -> consumed; other token -> Err(ExpectedToken), nothing consumed" % sorted(got, key=str)
         rep.ob("C13.R1", "expect_token_or_end-table", ok, why, eo.loc(), how="None -> Ok(None); Some -> filter(id == tok).map(next).ok_or_else(ExpectedToken)")
     # ---- R2
     n = common.errflow(ctx, "C13.R2", in_parser)
@@ -261,18 +275,22 @@ def line_attribution(ctx):
     shown = [(bi, t) for bi, t in fn.calls() if t["callee"].get("name") in ("new_display", "new_debug") and t["args"]]
     n = 0
     for bi, t in shown:
-        deps = kind_deep(fn, t["args"][0])
-        calls = {(callee_def(fn.term(d[1])) or "").rsplit("::", 1)[-1]: (d, p) for d, p in deps if d[0] == "call"}
-        roots = {p for d, p in deps if d == ("param", 1)}
+        deps = common.ip_origins(F, fn, t["args"][0])
+        calls = {}
+        for fp, d, p in deps:
+            if d[0] == "call":
+                g = F.fn(fp)
+                calls[(callee_def(g.term(d[1])) or "").rsplit("::", 1)[-1]] = (d, p)
+        roots = {p for fp, d, p in deps if fp == fn.path and d == ("param", 1)}
         n += 1
         ok, why = True, ""
         if "end" in calls:
             ok, why = False, "the line printed for a token location comes from the *end* of the token's range: a multi-line token is reported on the line it ends on"
-        elif "start" not in calls or calls["start"][1][:1] != ("line",):
+        elif "start" not in calls or "line" not in calls["start"][1]:
             ok, why = False, "the line printed for a token location is not range.start().line (derives from %s)" % (sorted(calls) or sorted(map(str, roots)))
-        elif not any(p[:1] == ("Token.0",) and "range" in p for p in roots):
+        elif not any("Token.0" in p and "range" in p for p in roots):
             ok, why = False, "the position used is not the offending token's own range"
-        elif not any(p[:1] == ("Line.0",) for p in roots):
+        elif not any("Line.0" in p for p in roots):
             ok, why = False, "a line location does not print its stored line"
         rep.ob("C13.R6", "line-shown::%d" % (n - 1), ok, why, fn.loc(t["line"]), how="Token -> range.start().line, Line -> the line")
     rep.floor("C13.R6", n, 1, "values printed by Display for ParseErrorLocation")
